@@ -1,5 +1,11 @@
 import EaselModel.Random.Lemmas
 import EaselModel.Random.Choose
+import EaselModel.Random.Deal64Fuel
+import EaselModel.Random.Deal64Real
+import EaselModel.Random.GaussThm
+import EaselModel.Random.SamplersLen
+import EaselModel.Random.Replay
+import EaselModel.Generated.RandTables
 /-! # C09 — property theorems (statements + glue only; lemmas live in Random/*.lean)
 
 Every theorem quantifies over all seeds / all stream positions / all states; none is bounded. -/
@@ -112,5 +118,139 @@ theorem dchoose_nonzero {F : Type} [FOps F] (hadd : ∀ x : F, FOps.add x FOps.z
 /-! non-vacuity -/
 example : (0 : Nat) < 6 ∧ 6 < 2^32 ∧ 3 < 6 := by decide
 example : rollWord 6 2147483648 = some 3 := by decide
+
+/-! ## `esl_rand64_Deal` (Vitter's method D) and `vitter_a` (method A)
+
+For every `1 ≤ m ≤ n` and every generator state the deal is exactly `m` strictly increasing values in `[0,n)`.
+Proved over ANY ordered field with floor, for ARBITRARY `exp`/`log` oracles satisfying only `0 ≤ exp x`,
+`x ≤ 0 → exp x ≤ 1`, `0 ≤ u ≤ 1 → log u ≤ 0`, for any source of raw 64-bit words (any generator state), any fuel.
+Everything else the proof uses is a test the code performs (`S < qu1`, `Vprime <= 1.`, `quot > U`, and the clamp
+`if (S >= n) S = n-1` of fix ba43348 — proving this theorem exposed that without the clamp an accepted `Vprime == 1.0` makes
+the last dealt value `n`; binary64 witness m=2, n=27 kept as regression case `deal64-vprime-one`). -/
+theorem rand64_deal_spec {F : Type} [Field F] [LinearOrder F] [IsStrictOrderedRing F] [FloorRing F] [Oracles F]
+    (ok : OracleOK F) {σ : Type} (next : σ → UInt64 × σ) (fuel : ℕ) (m n : ℤ) (hm : 1 ≤ m) (hmn : m ≤ n)
+    (s : σ) (out : List ℤ) (v : Option F) (s' : σ) (h : deal64Core next fuel m n s = some (out, v, s')) :
+    DealOK out m (n - 1) ∧ (∀ x, v = some x → 0 ≤ x ∧ x ≤ 1) :=
+  deal64Core_spec ok next fuel m n hm hmn s out v s' h
+
+/-- the same over `ℝ` with the real `exp` and `log`, on the MT19937-64 generator: for every generator state -/
+theorem rand64_deal_spec_real (r : Rng64) (fuel : ℕ) (m n : ℤ) (hm : 1 ≤ m) (hmn : m ≤ n)
+    (out : List ℤ) (v : Option ℝ) (r' : Rng64) (h : deal64Core (F := ℝ) Rng64.next fuel m n r = some (out, v, r')) :
+    DealOK out m (n - 1) :=
+  (deal64Core_spec realOracleOK Rng64.next fuel m n hm hmn r out v r' h).1
+
+/-- the clamp is live: whenever the oracle returns exactly 1 for the first `exp(minv·log u)`, `floor(n·Vprime) = n` and a deal
+    of 1 from `n` is `n-1` (without the clamp it was the out-of-range `n`) -/
+theorem rand64_deal_vprime_one_clamped {F : Type} [Field F] [LinearOrder F] [IsStrictOrderedRing F] [FloorRing F]
+    [Oracles F] {σ : Type} (next : σ → UInt64 × σ) (fuel : ℕ) (n : ℤ) (s : σ)
+    (h1 : Oracles.exp ((1 / ((1 : ℤ) : F)) * Oracles.log (VOps.dbl (next s).1 : F)) = 1) :
+    ⌊(n : F) * 1⌋ = n ∧ deal64Core (F := F) next fuel 1 n s = some ([n - 1], some 1, (next s).2) :=
+  deal64Core_one_vprime_one next fuel n s h1
+
+/-- termination with fuel: an answer obtained with some fuel is the answer for every larger fuel (each rejection loop
+    returns its first accepted draw); for every numeric vocabulary, in particular binary64 -/
+theorem rand64_deal_first_accepted {σ F : Type} [VOps F] (next : σ → UInt64 × σ) (f f' : Nat) (hf : f ≤ f') (m n : Int)
+    (s : σ) (r : List Int × Option F × σ) (h : deal64Core next f m n s = some r) : deal64Core next f' m n s = some r :=
+  deal64Core_mono next f f' hf m n s r h
+
+/-! non-vacuity: oracles satisfying the three facts exist over `ℚ`-like fields (`exp ≡ 1`, `log ≡ 0`), they also satisfy the
+    hypothesis of the counter-example; and `ℝ` with the real functions satisfies the three facts (`realOracleOK`). -/
+example : @OracleOK ℚ _ _ _ _ ⟨fun _ => 1, fun _ => 0⟩ :=
+  @OracleOK.mk ℚ _ _ _ _ ⟨fun _ => 1, fun _ => 0⟩ (fun _ => zero_le_one) (fun _ _ => le_refl _) (fun _ _ _ => le_refl _)
+example : OracleOK ℝ := realOracleOK
+
+/-! ## The derived samplers of esl_random.c (`Random/Samplers.lean`, driven bit for bit through the `Float` instance) -/
+
+/-- `esl_rnd_UniformPositive` (numerator model): the first non-zero draw, `0 < x < 2^32`, i.e. the double lies in (0,1) -/
+theorem uniformPositive_pos (r : Rng) (fuel x : Nat) (r' : Rng) (h : r.uniformPositive fuel = some (x, r')) :
+    0 < x ∧ x < 2^32 := by
+  induction fuel generalizing r with
+  | zero => simp [Rng.uniformPositive] at h
+  | succ fuel ih =>
+    simp only [Rng.uniformPositive] at h
+    split at h
+    · exact ih _ h
+    · rename_i hne
+      simp only [Option.some.injEq, Prod.mk.injEq] at h
+      rw [← h.1]
+      exact ⟨Nat.pos_of_ne_zero hne, random_unit r⟩
+
+/-- the same on the real-valued model: `esl_rnd_UniformPositive ∈ (0,1)` for every source state -/
+theorem uniform_positive_unit {σ : Type} (next : σ → UInt32 × σ) (s : σ) (f : ℕ) (u : ℝ) (s' : σ)
+    (h : uniPos next s f = .ok (u, s')) : 0 < u ∧ u < 1 := uniPos_unit next s f u s' h
+
+/-- `esl_rnd_Gaussian` never reads its tables `a[32] d[31] t[31] h[31]` out of bounds: for every generator state, any mean and
+    standard deviation, any tables of the declared sizes, all fuels (over `ℝ`; the tail index reaches exactly 31 for the
+    smallest uniform deviate 2^-32) -/
+theorem gaussian_in_bounds {σ : Type} (next : σ → UInt32 × σ) (fu fuel : ℕ) (T : GaussTables ℝ) (hT : TablesOK T)
+    (mean sd : ℝ) (s : σ) : gaussian next fu fuel T mean sd s ≠ .fault :=
+  gaussian_no_fault next fu fuel T hT mean sd s
+
+/-- the tables regenerated from the working tree have the declared sizes -/
+theorem gauss_table_sizes : EaselModel.Generated.RandTables.gaussSizes = [32, 31, 31, 31] := by decide
+
+/-- `esl_rnd_Gamma(a) > 0` for every `a > 0` (all four regimes), every generator state, all fuels — over `ℝ`, from the accept
+    tests the loops perform (`X > 0` in `gamma_ahrens`) and `0 < U < 1` for positive uniform deviates -/
+theorem gamma_positive {σ : Type} (next : σ → UInt32 × σ) (fu fuel : ℕ) (a : ℝ) (ha : 0 < a) (s : σ) (x : ℝ) (s' : σ)
+    (h : gamma next fu fuel a s = .ok (x, s')) : 0 < x := gamma_pos next fu fuel a ha s x s' h
+
+/-- `esl_rnd_Dirichlet`: `K` components, each `> 0`, summing to 1 in exact arithmetic (before rounding) -/
+theorem dirichlet_simplex {σ : Type} (next : σ → UInt32 × σ) (fu fuel : ℕ) (alpha : List ℝ) (hK : alpha ≠ [])
+    (hal : ∀ a ∈ alpha, 0 < a) (s : σ) (p : List ℝ) (s' : σ) (h : dirichlet next fu fuel alpha s = .ok (p, s')) :
+    p.length = alpha.length ∧ (∀ x ∈ p, 0 < x) ∧ p.sum = 1 :=
+  EaselModel.Random.dirichlet_simplex next fu fuel alpha hK hal s p s' h
+
+/-- `esl_rnd_mem` writes exactly `n` bytes -/
+theorem mem_bytes {σ : Type} (next : σ → UInt32 × σ) (fu n : Nat) (s : σ) (bs : List Nat) (s' : σ)
+    (h : rndMem next fu n [] s = .ok (bs, s')) : bs.length = n ∧ ∀ b ∈ bs, b < 256 := by
+  have := rndMem_spec next fu n [] s bs s' (by simp) h
+  simpa using this
+
+/-- `esl_rnd_floatstring` writes between 1 and 19 characters before the NUL: it fits the documented 20-byte buffer -/
+theorem floatstring_fits {σ : Type} (next : σ → UInt32 × σ) (fu : Nat) (s : σ) (cs : List Char) (s' : σ)
+    (h : floatString next fu s = .ok (cs, s')) : 1 ≤ cs.length ∧ cs.length ≤ 19 := floatString_len next fu s cs s' h
+
+/-- replay: after `esl_randomness_Init(r, seed)` on a generator of ANY history and either kind, every derived sampler returns
+    exactly what it returns on a fresh generator of that seed (same value or same non-termination), and the two generators
+    stay stream-equivalent — for any numeric vocabulary, in particular binary64 -/
+theorem samplers_replay {F : Type} [SOps F] (r : Rng) (seed : UInt32) (fu fuel : Nat) (T : GaussTables F) (mean sd a : F)
+    (alpha : List F) (n : Nat) :
+    let r1 := r.initWith seed
+    let r2 := Rng.create r.kind seed
+    RelS Rng.SameStream (gaussian Rng.next fu fuel T mean sd r1) (gaussian Rng.next fu fuel T mean sd r2) ∧
+    RelS Rng.SameStream (gamma Rng.next fu fuel a r1) (gamma Rng.next fu fuel a r2) ∧
+    RelS Rng.SameStream (dirichlet Rng.next fu fuel alpha r1) (dirichlet Rng.next fu fuel alpha r2) ∧
+    RelS Rng.SameStream (uniPos (F := F) Rng.next r1 fu) (uniPos Rng.next r2 fu) ∧
+    RelS Rng.SameStream (rndMem Rng.next fu n [] r1) (rndMem Rng.next fu n [] r2) ∧
+    RelS Rng.SameStream (floatString Rng.next fu r1) (floatString Rng.next fu r2) :=
+  let h := Rng.initWith_sameStream r seed
+  let b := Rng.sameStream_bisim
+  ⟨gaussian_rel b fu fuel T mean sd _ _ h, gamma_rel b fu fuel a _ _ h, dirichlet_rel b fu fuel alpha _ _ h,
+   uniPos_rel b fu _ _ h, rndMem_rel b fu n [] _ _ h, floatString_rel b fu _ _ h⟩
+
+/-- the integer literals of `mersenne_twister`, `mersenne_seed_table`, `mersenne_fill_table`, `knuth`, `esl_rand64`,
+    `mt64_seed_table`, `mt64_fill_table` in the working tree (regenerated on every run) are the published MT19937
+    (n=624, m=397, a=0x9908B0DF, u=11, s=7, b=0x9D2C5680, t=15, c=0xEFC60000, l=18; seeding multiplier 69069) and
+    MT19937-64 (n=312, m=156, a=0xB5026F5AA96619E9, u=29, d=0x5555555555555555, s=17, b=0x71D67FFFEDA60000, t=37,
+    c=0xFFF7EEE000000000, l=43; seeding multiplier 6364136223846793005, shift 62) constants, in the order the hand model
+    (`twist32/temper32/P32`, `twist64/temper64/P64`) uses them -/
+theorem mt_constants_published :
+    EaselModel.Generated.RandTables.mt32TemperLits = [624, 11, 7, 0x9D2C5680, 15, 0xEFC60000, 18] ∧
+    EaselModel.Generated.RandTables.mt32SeedLits = [0, 1, 624, 69069, 1] ∧
+    EaselModel.Generated.RandTables.lcgLits = [69069, 1] ∧
+    EaselModel.Generated.RandTables.mt32FillLits =
+      [2, 0, 0x9908B0DF, 0, 227, 0x80000000, 1, 0x7FFFFFFF, 397, 1, 1, 623, 0x80000000, 1, 0x7FFFFFFF, 227, 1, 1,
+       623, 0x80000000, 0, 0x7FFFFFFF, 623, 396, 1, 1, 0] ∧
+    EaselModel.Generated.RandTables.mt64TemperLits =
+      [312, 29, 0x5555555555555555, 17, 0x71D67FFFEDA60000, 37, 0xFFF7EEE000000000, 43] ∧
+    EaselModel.Generated.RandTables.mt64SeedLits = [0, 1, 312, 6364136223846793005, 1, 1, 62] ∧
+    EaselModel.Generated.RandTables.mt64FillLits =
+      [2, 0, 0xB5026F5AA96619E9, 0, 156, 0xFFFFFFFF80000000, 1, 0x7FFFFFFF, 156, 1, 1, 311, 0xFFFFFFFF80000000, 1,
+       0x7FFFFFFF, 156, 1, 1, 311, 0xFFFFFFFF80000000, 0, 0x7FFFFFFF, 311, 155, 1, 1, 0] := by decide
+
+/-! non-vacuity of the sampler hypotheses -/
+example : TablesOK ⟨Array.replicate 32 0, Array.replicate 31 0, Array.replicate 31 0, Array.replicate 31 0⟩ :=
+  ⟨by simp, by simp, by simp, by simp⟩
+example : (0:ℝ) < 0.5 ∧ ([0.5, 2] : List ℝ) ≠ [] := ⟨by norm_num, by simp⟩
 
 end EaselModel.Props.C09
